@@ -46,6 +46,9 @@ CHECKS = {
  "C16": dict(cat="other", tech="sibling cross-check: CTFE constants and abstractly evaluated layout of this crate against constants parsed from the vendored PQClean C sources",
    text="Static agreement with the reference (PQClean sources, parsed not run): three byte sizes per variant, l2bound and the acceptance operator (X <= bound), sigma_min and 1/sigma, secret-key field widths, decoder acceptance of the reference's key header bytes, the documented signature label difference (0x5n here / 0x3n there, same log n), 14-bit public-key fields with values >= q rejected, most-significant-bit-first packing, HashToPoint (SHAKE-256, big-endian 16-bit samples, keep iff t < 61445, reduce mod q), RCDT and FACCT tables.",
    note=TRUST + "Not decided: that each implementation accepts the other's signatures (dynamic); compressed-signature body layout agreement is covered on this side by C07.", ref="4/C16"),
+ "C10": dict(cat="other", tech="symbolic expression extraction by abstract interpretation of the signing pipeline + identity testing against the specified formulas; constants vs re-derived values; call-event data flow",
+   text="Static structural preconditions of the distribution claim (the distribution itself is NOT decided): sigma and sigmin of both variants equal the re-derived specification values and sigma/sigmin = 1.17 sqrt q; gram = B B*, ldl (l10 = g10/g00, d11 = g11 - |l10|^2 g00), ffldl's recursion/leaf structure, normalize_tree's leaf update sigma/sqrt(leaf) with zeroed slots and same-sigma recursion, from_b0 = normalize(ffldl(gram(fft b0)), sigma_N) with SecretKey built nowhere else, ffsampling's leaf (sampler_z(t_i, leaf, params.sigmin, rng), result exactly the two sampler outputs) and branch (right child first, t0' = t0 + (t1 - z1) l10, result (z0, z1)), and sign's algebra (t = (c,0)B^-1, s = (t - z)B'' on the verifier's coset for every sampler output, B''B''* = Gram of the key basis, norm over both components, s1 emitted after round) are each decided by comparing the expression tree the interpreter extracts from the MIR with the specified formula at random points.",
+   note=TRUST + "Identity testing: error probability negligible. Not decided: any statistical statement; floating-point error; the transforms' numerics (tables: C13).", ref="4/C10"),
 }
 NA = {
  "C17": "algebraic/numeric equivalence of two Babai reductions at run-time magnitudes; no structural clause that is both decidable and a substantial necessary condition (DESIGN.md section 4, C17)",
